@@ -145,26 +145,35 @@ def body():
             chk.count((m.id, "p1_table"), True)
             if bad:
                 fail("bary:P1:table", "barycentric P1 function takes %.6g at corner %d of barycentric element %d, exact %.6g" % (bad[2], bad[1], bad[0], bad[3]))
-            # DUAL1: dof <-> element through the DP0 numbering
+            # DUAL1: dof <-> element through the DP0 numbering, on the whole grid, a segment and a non-prefix support
+            for vname, kw in variants:
+                D0 = api.function_space(g, "DP", 0, **kw)
+                S = [int(e) for e in np.flatnonzero(D0.support)]
+                touching = [e for e in range(m.n) if any(set(m.el[e]) & set(m.el[f]) for f in S)]
+                for trunc in (False, True):
+                    d1 = api.function_space(g, "DUAL", 1, truncate_at_segment_edge=trunc, **kw)
+                    if d1.global_dof_count != len(S):
+                        fail("dual1:dof_count", "DUAL1 (%s, truncate=%s) has %d dofs for %d selected elements" % (vname, trunc, d1.global_dof_count, len(S)))
+                        continue
+                    supp = set(S) if trunc else set(touching)   # documented support: the selection, extended to its neighbours unless truncated
+                    D = d1.dof_transformation.tocsr()
+                    bad = None
+                    for e in S:
+                        dof = int(D0.local2global[e, 0])
+                        tab = dict((tuple(x), v) for x, v in m.elem[e]["dual1"])
+                        for b, (parents, corners) in enumerate(lay):
+                            inside = (b // 6) in supp
+                            vals = rd.bary_values(d1, b, pts[:, :3], D).get(dof) if d1.support[b] else None
+                            for q, node in enumerate(corners):
+                                num, den = tab.get(node, (0, 1)) if inside else (0, 1)
+                                got = 0.0 if vals is None else float(vals[0, q])
+                                if abs(got - num / den) > 1e-9 and bad is None:
+                                    bad = (e, b, q, got, num, den)
+                    chk.count((m.id, "dual1_table", vname, trunc), True)
+                    if bad:
+                        fail("dual1:nodal", "DUAL1 function of element %d takes %.6g at corner %d of barycentric element %d, documented value %d/%d (%s, truncate=%s)" % (
+                            bad[0], bad[3], bad[2], bad[1], bad[4], bad[5], vname, trunc))
             D0 = api.function_space(g, "DP", 0)
-            for trunc in (False, True):
-                d1 = api.function_space(g, "DUAL", 1, truncate_at_segment_edge=trunc)
-                D = d1.dof_transformation.tocsr()
-                bad = None
-                for e in range(m.n):
-                    dof = int(D0.local2global[e, 0])
-                    tab = dict((tuple(x), v) for x, v in m.elem[e]["dual1"])
-                    for b, (parents, corners) in enumerate(lay):
-                        vals = rd.bary_values(d1, b, pts[:, :3], D).get(dof)
-                        for q, node in enumerate(corners):
-                            num, den = tab.get(node, (0, 1))
-                            got = 0.0 if vals is None else float(vals[0, q])
-                            if abs(got - num / den) > 1e-9 and bad is None:
-                                bad = (e, b, q, got, num, den)
-                chk.count((m.id, "dual1_table", trunc), True)
-                if bad:
-                    fail("dual1:nodal", "DUAL1 function of element %d takes %.6g at corner %d of barycentric element %d, documented value %d/%d (truncate=%s)" % (
-                        bad[0], bad[3], bad[2], bad[1], bad[4], bad[5], trunc))
             # DUAL0: dof <-> vertex through the P1 numbering (default options of both)
             P1d = api.function_space(g, "P", 1, include_boundary_dofs=True, truncate_at_segment_edge=False)
             d0 = api.function_space(g, "DUAL", 0, include_boundary_dofs=True, truncate_at_segment_edge=False)
